@@ -246,6 +246,43 @@ def h_read_sync(H):
     S.explore(body)
 
 
+@harness(PROPERTY, "read_sync_nidq_analog", functions=["spikeglx:Reader.read_sync", "spikeglx:Reader.read_sync_analog", "spikeglx:Reader.read", "spikeglx:_get_analog_sync_trace_indices_from_meta"],
+         clause="digital lines first and thresholded analog lines after them: each analog sync channel is compared with the threshold after removing its own floor")
+def h_read_sync_nidq(H):
+    for nxa in (1, 2):
+        S = H.session(f"read_sync.nidq.xa{nxa}")
+
+        def body(it, nxa=nxa):
+            ns, a, b = z3.Ints("ns a b")
+            thr = z3.Real("threshold")
+            it.ctx.assume(z3.And(ns >= 1, a >= 0, a < b, b <= ns, thr > 0))     # a threshold <= 0 would turn the zeros written first into ones (not a TTL threshold)
+            nmn = 1
+            nc = nmn + nxa + 1
+            raw = A.fresh_array("raw", "int16", (ns, nc))
+            s2v = A.fresh_array("s2v", "float64", (nc,))
+            meta = {"typeThis": "nidq", "nSavedChans": nc, "snsMnMaXaDw": [nmn, 0, nxa, 1]}
+            obj = SObj(spikeglx.Reader, _raw=raw, meta=meta, is_open=True, channel_conversion_sample2v={"nidq": s2v}, type="nidq")
+            out = run_function(it, spikeglx.Reader.read_sync, [obj, slice(SV(a), SV(b))], {"threshold": SV(thr)})
+            tag = f"xa{nxa}"
+            it.ctx.oblige(f"read_sync.nidq.shape.{tag}", z3.And(z3.BoolVal(out.ndim == 2), A.T(out.shape[0]) == b - a, A.T(out.shape[1]) == 16 + nxa), "post", "one row per sample, 16 digital lines then one line per analog sync channel")
+            i = z3.Int("i")
+            it.ctx.assume(z3.And(i >= 0, i < b - a))
+            for k in (0, 7, 15):
+                it.ctx.oblige(f"read_sync.nidq.bit.{k}.{tag}", out.read((i, z3.IntVal(k))) == bit(raw.read((a + i, nc - 1)), k), "post", assume=False)
+            floors = [r for r in getattr(it.ctx, "reduce_log", []) if r["name"] == "percentile"]
+            okf = len(floors) == 1 and len(floors[0]["in_shape"]) == 2 and floors[0]["axis"] in (0, -2)
+            it.ctx.oblige(f"read_sync.nidq.floor_per_channel.{tag}", z3.BoolVal(okf), "post", "the floor removed before thresholding is taken per analog channel (along samples)")
+            if okf:
+                fl = floors[0]
+                for j in range(nxa):
+                    volts = A.cast_term("int16", "float32", raw.read((a + i, nmn + j)))
+                    v = volts * s2v.read((z3.IntVal(nmn + j),))
+                    it.ctx.oblige(f"read_sync.nidq.floor_input.{j}.{tag}", fl["input"]((i, z3.IntVal(j))) == v, "post", "the floor is computed from that channel's calibrated samples", assume=False)
+                    it.ctx.oblige(f"read_sync.nidq.analog_line.{j}.{tag}", out.read((i, z3.IntVal(16 + j))) == z3.If(v - fl["out"](z3.IntVal(j)) >= thr, 1, 0), "post",
+                                  "analog line j is 1 exactly where channel j minus its floor reaches the threshold", assume=False)
+        S.explore(body)
+
+
 # ----------------------------------------------------------------------------- bounded
 @bounded(PROPERTY, "native_words_fronts", bound="all 65536 words; random 0/1 trains on random subsets of lines, n<=400; 2-D along both axes; analog around threshold; nidq read_sync on a small real file",
          clause="exhaustive decoding; event train recovery end-to-end")
@@ -284,3 +321,71 @@ def b_native(B):
         got = U.rises(x, step=thr, analog=True)
         wantr = [i for i in range(1, n) if x[i] > thr and not x[i - 1] > thr]
         B.case(("analog", t), got.tolist() == wantr, detail="analog rises")
+
+
+def _nidq_recording(folder, name, analog_volts, words):
+    """a NIDQ recording with na analog sync channels + one digital word, metadata derived from the shipped nidq fixture"""
+    import pathlib
+    fix = pathlib.Path(spikeglx.__file__).parent / "tests" / "fixtures" / "sample3B_g0_t0.nidq.meta"
+    ns, na = analog_volts.shape
+    nc = na + 1
+    fs = 30003.0003
+    rep = {"acqMnMaXaDw": f"0,0,{na},1", "snsMnMaXaDw": f"0,0,{na},1", "nSavedChans": f"{nc}", "fileSizeBytes": f"{ns * nc * 2}", "fileTimeSecs": f"{ns / fs}",
+           "niXAChans1": "0" if na == 1 else f"0:{na - 1}", "~snsChanMap": f"(0,0,{na},1,1)" + "".join(f"(XA{i};{i}:{i})" for i in range(na)) + f"(XD0;{na}:{na})"}
+    lines = []
+    for line in fix.read_text().splitlines():
+        k = line.split("=", maxsplit=1)[0]
+        lines.append(f"{k}={rep[k]}" if k in rep else line)
+    b = pathlib.Path(folder) / f"{name}.nidq.bin"
+    b.with_suffix(".meta").write_text("\n".join(lines) + "\n")
+    D = np.zeros((ns, nc), dtype=np.int16)
+    D[:, :na] = np.round(analog_volts / 5 * 32768).astype(np.int16)
+    D[:, -1] = words.astype(np.uint16).view(np.int16)
+    D.tofile(b)
+    return b
+
+
+@bounded(PROPERTY, "native_nidq_analog_sync", bound="NIDQ recordings of 3000 samples with 1, 2 and 3 analog sync channels at DC offsets {0, 2.5, 1.0} V carrying 10 pulses each + 4 digital lines with 8 events each; read_sync over the whole file "
+         "and over a slice; fronts of every returned column against the trains written", clause="digital lines first, thresholded analog lines after them; every TTL train written is recovered")
+def b_nidq(B):
+    import tempfile
+    import shutil
+    rng = np.random.default_rng(B.seed)
+    ns = 3000
+    d = tempfile.mkdtemp(prefix="c10_")
+    try:
+        for na in (1, 2, 3):
+            dig = np.zeros((ns, 16), np.int64)
+            for ln in rng.choice(16, 4, replace=False):
+                st = np.zeros(ns, np.int64)
+                for e in np.sort(rng.choice(np.arange(1, ns), 8, replace=False)):
+                    st[e:] = 1 - st[e:]
+                dig[:, ln] = st
+            words = np.sum(dig << np.arange(16), axis=1).astype(np.uint16)
+            ttl = np.zeros((ns, na), np.int64)
+            dc = np.array([0.0, 2.5, 1.0])[:na]
+            amp = np.array([3.3, 2.0, 2.4])[:na]
+            for j in range(na):
+                for k in range(10):
+                    s0 = 60 + 37 * j + k * 280
+                    ttl[s0: s0 + 25 + 5 * j, j] = 1
+            volts = dc + ttl * amp + rng.normal(0, 0.01, (ns, na))
+            f = _nidq_recording(d, f"xa{na}", volts, words)
+            bad = []
+            with spikeglx.Reader(f) as sr:
+                for sl in (slice(0, ns), slice(40, 2900)):
+                    sync = sr.read_sync(sl)
+                    n = sl.stop - sl.start
+                    if sync.shape != (n, 16 + na):
+                        bad.append(("shape", sync.shape))
+                        continue
+                    if not np.array_equal(sync[:, :16], dig[sl]):
+                        bad.append(("digital lines are not the first 16 columns",))
+                    for j in range(na):
+                        i1, p1 = U.fronts(sync[:, 16 + j])
+                        i0, p0 = U.fronts(ttl[sl, j])
+                        if not (np.array_equal(i1, i0) and np.array_equal(p1, p0)):
+                            bad.append(("analog line", j, f"{i0.size} events written, {i1.size} recovered"))
+            B.case(("nidq", na), not bad, detail=bad[:4])
+    finally:
+        shutil.rmtree(d, ignore_errors=True)
